@@ -29,6 +29,18 @@ fn check_d<const D: usize>(c: &Phys, ctx: &mut Ctx) -> Result<(), Failure> {
             return Ok(());
         }
     };
+    // every fourth case: a sampler that went through a serde round trip (the statement is about "a sample", however
+    // the sampler was obtained)
+    let hx = c.x.iter().fold(0u64, |a, v| a.wrapping_mul(31).wrapping_add(v.to_bits()));
+    let s = if hx % 4 == 1 {
+        ctx.label("sampler:restored-from-json");
+        match serde_json::to_string(&s).ok().and_then(|t| serde_json::from_str(&t).ok()) {
+            Some(r) => r,
+            None => s,
+        }
+    } else {
+        s
+    };
     let ed = sut::edge_data::<D>(&g.massive, &c.kin.masses, &c.kin.shifts);
     let out = match sut::sample_f64(&s, &c.x, ed, None, false, true) {
         Ok(o) => o,
